@@ -13,6 +13,7 @@ import Bng.Drv.HaSync
 import Bng.Drv.Failover
 import Bng.Drv.Dhcp4
 import Bng.Drv.Dhcp6
+import Bng.Drv.Dhcp6Int
 import Bng.Drv.Bitmap
 import Bng.Drv.PppoeServer
 import Bng.Drv.PppAuth
@@ -27,6 +28,7 @@ import Bng.Drv.Dist
 import Bng.Drv.PoolAlloc
 import Bng.Drv.Nat
 import Bng.Drv.Nat44
+import Bng.Drv.NatKern
 import Bng.Drv.Vlan
 import Bng.Drv.Qinq
 import Bng.Drv.PppSess
@@ -54,6 +56,7 @@ def components : List (String × Component) := [
   ("failover", FailoverDrv.component),
   ("dhcp4", Dhcp4Drv.component),
   ("dhcp6", Dhcp6Drv.component),
+  ("dhcp6int", Dhcp6IntDrv.component),
   ("bitmap", BitmapDrv.component),
   ("pppoesrv", PppoeServerDrv.component),
   ("pppauth", PppAuthDrv.component),
@@ -71,6 +74,7 @@ def components : List (String × Component) := [
   ("nat", NatDrv.component),
   ("rendezvous", RendezvousDrv.component),
   ("nat44", Nat44Drv.component),
+  ("natkern", NatKernDrv.component),
   ("epoch", EpochDrv.component),
   ("dist", DistDrv.component),
   ("poolalloc", PoolAllocDrv.component),
